@@ -86,7 +86,7 @@ func (k *Checker) trackState(n *Node, pre, post *raft.VerifState, ctx *callCtx) 
 			e := x.entryAt(i)
 			g := k.gAt(i)
 			if e != nil && g != nil && (g.term != e.GetTerm() || g.hash != hashEntry(e)) {
-				k.report("C01", "sm.never_replaced", n, fmt.Sprintf("commit covers index %d holding term %d, committed entry has term %d", i, e.GetTerm(), g.term), "")
+				k.report2("C01", "sm.never_replaced", "C04", "lc.no_overwrite", n, fmt.Sprintf("commit covers index %d holding term %d, committed entry has term %d", i, e.GetTerm(), g.term), "")
 				return
 			}
 		}
@@ -221,7 +221,13 @@ func (k *Checker) checkLeaderAdvance(n *Node, pre, post *raft.VerifState) {
 				have = append(have, id)
 			}
 		}
-		k.report("C06", "cm.leader_advance", n, fmt.Sprintf("leader of term %d advanced commit to %d but only %v durably hold that entry (voters %v, outgoing %v)", post.Term, cidx, have, post.Voters, post.VotersOutgoing), "cm.la.quorum")
+		msg := fmt.Sprintf("leader of term %d advanced commit to %d but only %v durably hold that entry (voters %v, outgoing %v)", post.Term, cidx, have, post.Voters, post.VotersOutgoing)
+		if len(post.VotersOutgoing) > 0 {
+			// C10: majorities of both voter sets while the configuration is joint
+			k.report2("C06", "cm.leader_advance", "C10", "mc.joint_quorums", n, msg, "cm.la.quorum")
+		} else {
+			k.report("C06", "cm.leader_advance", n, msg, "cm.la.quorum")
+		}
 		return
 	}
 	if len(post.VotersOutgoing) > 0 {
@@ -247,7 +253,12 @@ func (k *Checker) onBecomeLeader(n *Node, pre, post *raft.VerifState, ctx *callC
 				have = append(have, id)
 			}
 		}
-		k.report("C02", "el.quorum", n, fmt.Sprintf("became leader of term %d with granted votes from %v only (voters %v, outgoing %v)", t, have, post.Voters, post.VotersOutgoing), "")
+		msg := fmt.Sprintf("became leader of term %d with granted votes from %v only (voters %v, outgoing %v)", t, have, post.Voters, post.VotersOutgoing)
+		if len(post.VotersOutgoing) > 0 {
+			k.report2("C02", "el.quorum", "C10", "mc.joint_quorums", n, msg, "el.quorum")
+		} else {
+			k.report("C02", "el.quorum", n, msg, "")
+		}
 		return
 	}
 	if len(post.VotersOutgoing) > 0 {
